@@ -324,6 +324,21 @@ LEAF_SOLVES = ("mf.solve", "mf.spsolve", "mf.solve_triangular")
 
 
 # ------------------------------------------------------------------------------------------------------------ R1
+def _table(ctx, tag, fn, ret, n):
+    """the n-tuple a table method returns, or None after reporting why there is none"""
+    if I.is_crash(ret):
+        ctx.fail(f"{tag}: the table can be evaluated", fn, {"evaluation raises": ret.why})
+        return None
+    if isinstance(ret, tuple) and len(ret) == n:
+        cr = _find_crash(ret)
+        if cr is not None:
+            ctx.fail(f"{tag}: the table can be evaluated", fn, {"evaluation raises": cr.why})
+            return None
+        return ret
+    ctx.error(f"{tag}: return", fn, f"expected {n} values, got {ret!r}"[:300])
+    return None
+
+
 def r1_pade_tables(ctx):
     h = F.sym("h")
     x = F.sym("x")
@@ -341,9 +356,8 @@ def r1_pade_tables(ctx):
         verdict(ctx, ok, f"{cls}.A{k} is the {k}-th power of A", cnode, repr(v), [v])
     for N, name in ((3, "pade3_i"), (5, "pade5_i"), (7, "pade7_i"), (9, "pade9_i")):
         fn = ctx.src.func(EXPM, f"{cls}.{name}")
-        ret = it.method(H, name, [h])
-        if not (isinstance(ret, tuple) and len(ret) == 4):
-            ctx.error(f"{name}: return", fn, f"expected (U, V, P, Q), got {ret!r}"[:300])
+        ret = _table(ctx, f"{cls}.{name}", fn, it.method(H, name, [h]), 4)
+        if ret is None:
             continue
         U, V, P, Q = ret
         if N in (3, 5):
@@ -351,8 +365,8 @@ def r1_pade_tables(ctx):
         _check_int(ctx, f"{cls}.{name}", fn, P, Q, N, 1, h)
     # pade13 with scaling: B = A 2^-s, h -> h 2^-s   (first parameter: number of squarings, second: the step)
     fn = ctx.src.func(EXPM, f"{cls}.pade13_scaled_i")
-    ret = it.method(H, "pade13_scaled_i", [F.sym("s"), h])
-    if isinstance(ret, tuple) and len(ret) == 4:
+    ret = _table(ctx, f"{cls}.pade13_scaled_i", fn, it.method(H, "pade13_scaled_i", [F.sym("s"), h]), 4)
+    if ret is not None:
         U, V, P, Q = ret
         sig = F.sym("2^s")
         try:
@@ -370,8 +384,6 @@ def r1_pade_tables(ctx):
             _check_int(ctx, f"{cls}.pade13_scaled_i", fn, Pn, Q2, 13, 1, h)
         except Unsupported as e:
             ctx.error(f"{cls}.pade13_scaled_i", fn, str(e))
-    else:
-        ctx.error("pade13_scaled_i: return", fn, f"expected (U, V, P, Q), got {ret!r}"[:300])
     # _geti2: which table does each order passed by expmint reach, and is it the approximant of the second integral?
     fn = ctx.src.func(EXPM, "_geti2")
     E, I1 = F.sym("E"), F.sym("Int")
@@ -380,6 +392,9 @@ def r1_pade_tables(ctx):
         H2 = it2.instantiate(cls, [x], {"structure": None})
         ret = it2.call("_geti2", [H2, E, I1, h, F.const(v)])
         leaf = _last(it2.calls, *LEAF_SOLVES)
+        if I.is_crash(ret):
+            ctx.fail(f"_geti2: order {v} (as passed by expmint) selects the degree-{v} table", fn, {"evaluation raises": ret.why})
+            continue
         if leaf is None or len(leaf.pos) < 2 or is_unknown(leaf.pos[0]) or is_unknown(leaf.pos[1]) or isinstance(ret, Raised):
             ctx.error(f"_geti2 for order {v}", fn, f"no Pade solve reached: {ret!r}"[:300])
             continue
@@ -402,14 +417,13 @@ def r1_pade_tables(ctx):
         raise AnchorError(f"{cls}: constructor")
     for N, name in ((3, "pade3"), (5, "pade5"), (7, "pade7"), (9, "pade9")):
         fn = ctx.src.func(EXPM, f"{cls}.{name}")
-        ret = it.method(H, name, [])
-        if not (isinstance(ret, tuple) and len(ret) == 2):
-            ctx.error(f"{cls}.{name}: return", fn, f"expected (U, V), got {ret!r}"[:300])
+        ret = _table(ctx, f"{cls}.{name}", fn, it.method(H, name, []), 2)
+        if ret is None:
             continue
         _check_exp(ctx, f"{cls}.{name}", fn, ret[0], ret[1], N)
     fn = ctx.src.func(EXPM, f"{cls}.pade13_scaled")
-    ret = it.method(H, "pade13_scaled", [F.sym("s")])
-    if isinstance(ret, tuple) and len(ret) == 2:
+    ret = _table(ctx, f"{cls}.pade13_scaled", fn, it.method(H, "pade13_scaled", [F.sym("s")]), 2)
+    if ret is not None:
         try:
             sub = {"x": x * F.sym("2^s")}
             U2, V2 = (need(t).subs(sub) for t in ret)
@@ -418,8 +432,6 @@ def r1_pade_tables(ctx):
             _check_exp(ctx, f"{cls}.pade13_scaled", fn, U2, V2, 13)
         except Unsupported as e:
             ctx.error(f"{cls}.pade13_scaled", fn, str(e))
-    else:
-        ctx.error(f"{cls}.pade13_scaled: return", fn, f"expected (U, V), got {ret!r}"[:300])
 
 
 # ------------------------------------------------------------------------------------------------------------ R2
@@ -946,7 +958,14 @@ def _model(it, A, B, C, D, h=None):
     return m
 
 
+class _Crashed(Exception):
+    def __init__(self, crash):
+        self.crash = crash
+
+
 def _abcd(m, what):
+    if I.is_crash(m):
+        raise _Crashed(m)
     if not isinstance(m, Obj) or m.cls is None or m.cls.name != "SSModel":
         raise Unsupported(f"{what}: result is not an SSModel: {m!r}")
     out = [m.attrs.get(k) for k in ("A", "B", "C", "D")]
@@ -978,6 +997,9 @@ def r5_ssmodel(ctx):
             zm = it.method(s, "c2d", [h], {"method": method, "prewarp": pw})
             zA, zB, zC, zD = _abcd(zm, f"c2d[{tag}]")
             inplace["c2d"] += [t for _n, t in it.inplace]
+        except _Crashed as e:
+            ctx.fail(f"c2d[{tag}]: the conversion can be evaluated", cfn, {"evaluation raises": e.crash.why})
+            continue
         except Unsupported as e:
             ctx.error(f"c2d[{tag}]: could not evaluate", cfn, str(e)[:400])
             continue
@@ -1006,6 +1028,9 @@ def r5_ssmodel(ctx):
             sm = it.method(zmod, "d2c", [], {"method": method, "prewarp": pw})
             sA, sB, sC, sD = _abcd(sm, f"d2c[{tag}]")
             inplace["d2c"] += [t for _n, t in it.inplace]
+        except _Crashed as e:
+            ctx.fail(f"d2c[{tag}]: the conversion can be evaluated", dfn, {"evaluation raises": e.crash.why})
+            continue
         except Unsupported as e:
             ctx.error(f"d2c[{tag}]: could not evaluate", dfn, str(e)[:400])
             continue
@@ -1029,7 +1054,11 @@ def r5_ssmodel(ctx):
             ctx.error(f"{nm}: unknown method", fn, str(e)[:300])
             continue
         ok = isinstance(r, Raised)
-        ctx.check(ok, f"{nm}: an unknown method raises instead of falling through", r.node if ok else fn, None if ok else repr(r)[:200])
+        if I.is_crash(r):
+            ctx.fail(f"{nm}: an unknown method raises instead of falling through", fn, {"evaluation raises (before the method is looked at)": r.why})
+        else:
+            verdict(ctx, ok, f"{nm}: an unknown method raises instead of falling through", r.node if ok else fn, repr(r)[:200],
+                    [r.attrs.get(k_) for k_ in "ABCD"] if isinstance(r, Obj) else [r])
 
 
 # ------------------------------------------------------------------------------------------------------------ R6
